@@ -138,9 +138,17 @@ def run_case(case):
         gene = gen_sol.shipped(case["gene"], case["build"])
     picks = case["picks"]
     n = len(picks)
-    base = gen_sol.make_solution(gene, picks, case["seed"], display_format=case["display"])
+    base = gen_sol.make_solution(gene, picks, case["seed"], display_format=case["display"], with_deletion=case.get("with_deletion", False))
+    # bias: when asked, make the first pick the deletion allele itself
+    if case.get("with_deletion") and gene.deletion_allele() and base.solution and case["seed"] % 2 == 0:
+        from aldy.solutions import SolvedAllele
+
+        da = gene.deletion_allele()
+        base.solution[0] = SolvedAllele(gene, da, sorted(gene.alleles[da].minors)[0], [], [])
     labels = [f"gene:{case['gene']}", f"n:{n}"]
     viol = []
+    if any(a.major == gene.deletion_allele() for a in base.solution):
+        labels.append("deletion-allele-called")
     if any("#" in a.major for a in base.solution):
         labels.append("fused-name")
     if any(tuple(m) in gene.mutations and gene.mutations[tuple(m)][0] for a in base.solution for m in a.added):
@@ -172,6 +180,7 @@ def strategy(tier):
         "picks": st.sampled_from([0, 1, 2, 2, 3, 3, 4, 4, 5, 6]).flatmap(lambda n: st.lists(st.integers(0, 400), min_size=n, max_size=n)),
         "seed": st.integers(0, 10 ** 6),
         "display": st.sampled_from([False, False, False, True]),
+        "with_deletion": st.booleans(),
     }
     dbs = gen_db.db_specs(gaps=False, pseudo=True, force_sv=True, small=True, max_sites=5, max_alleles=5).map(
         lambda s: dict(s, tandems=s.get("tandems") or [[0, 1], [2, 1]]))
